@@ -92,7 +92,7 @@ def run(ctx):
     # R10.6
     for f, c, table, multi in ds:
         b = f.built
-        sites = [(blk, t) for blk, t in b.calls() if wakers.is_poll_call(t) and not wakers.is_delegation(F, f, t)]
+        sites = [(blk, t) for blk, t in b.calls() if wakers.is_poll_call(t)] + [(blk, t) for blk, t, c in wakers.local_poll_helper_calls(F, f)]
         slocs = {(blk, len(b.blocks[blk]["stmts"])) for blk, t in sites}
         for loc, s in b.iter_stmts():
             if s["k"] == "assign" and s["rv"]["k"] == "agg" and s["rv"].get("adt") == "std::option::Option" and s["rv"]["variant"] == "None":
